@@ -666,4 +666,8 @@ def main(argv):
     except ValueError:
         seed = 1
     rp = os.path.abspath(a.replay) if a.replay else None
+    if rp and rp.endswith(".txt"):
+        # a proof / build problem report: there is no history to re-run; show it and re-check the proofs
+        print(open(rp, errors="replace").read())
+        rp = None
     return check_property(a.property, a.tier, seed, replay=rp)
